@@ -611,11 +611,23 @@ func (e *engEnv) warmLookups(nss []namespace.Namespace) {
 			rels = append(rels, r.Name)
 		}
 		for _, rel := range rels {
-			func() {
+			if e.hung {
+				return
+			}
+			// under a watchdog like every other check: a check that never returns must not take the stream with it
+			done := make(chan struct{})
+			go func(ns, rel string) {
+				defer close(done)
 				defer func() { _ = recover() }()
-				e.eng.CheckRelationTuple(ctx, &relationtuple.RelationTuple{Namespace: nss[i].Name, Object: objUUID(0), Relation: rel,
+				e.eng.CheckRelationTuple(ctx, &relationtuple.RelationTuple{Namespace: ns, Object: objUUID(0), Relation: rel,
 					Subject: &relationtuple.SubjectID{ID: subUUID(0)}}, 2)
-			}()
+			}(nss[i].Name, rel)
+			select {
+			case <-done:
+			case <-time.After(time.Duration(envInt("VERIF_CHECK_WATCHDOG_S", 60)) * time.Second):
+				e.hung = true
+				return
+			}
 		}
 	}
 }
